@@ -26,7 +26,7 @@ ASSUMPTIONS = [
     "with trailing bytes after an RTU frame the served payload must be the prefix of response_data() (the library's "
     "trim keeps the trailing bytes; sensors address the payload by offset)",
 ]
-MUST = ["single_value_entry_points", "aa55_read_length_independent_of_count", "aa55_sum_ge_8000", "aa55_sum_ge_10000", "rtu_trailing", "end_to_end_success", "negative_write_echo", "overlapping_tcp_inverters", "same_object_sequences", "consecutive_slow_or_identical_answers", "requests_from_a_new_event_loop", "write_ack_payload_checked", "answer_from_another_comm_address",
+MUST = ["typed_setting_write_echoes", "single_value_entry_points", "aa55_read_length_independent_of_count", "aa55_sum_ge_8000", "aa55_sum_ge_10000", "rtu_trailing", "end_to_end_success", "negative_write_echo", "overlapping_tcp_inverters", "same_object_sequences", "consecutive_slow_or_identical_answers", "requests_from_a_new_event_loop", "write_ack_payload_checked", "answer_from_another_comm_address",
         "accepted_rtu", "accepted_tcp", "accepted_aa55"]
 EXHAUSTIVE = {"quick": False, "thorough": False}
 CLASSES = ["random", "ff", "00", "7f80", "fe", "aa55"]
@@ -357,15 +357,54 @@ def plan(tier, seed):
                       "nvals": 200 if tier == "quick" else 8192})
     for i in range(4 if tier == "quick" else 32):
         specs.append({"mode": "e2e", "seed": f"{seed}:C02:E:{i}", "n": 600 if tier == "quick" else 10000})
-    specs.append({"mode": "overlap", "seed": f"{seed}:C02:O", "n": 60 if tier == "quick" else 3000})
+    specs.append({"mode": "overlap", "seed": f"{seed}:C02:O", "n": 60 if tier == "quick" else 3000, "typed": True})
     for i in range(1 if tier == "quick" else 16):
         specs.append({"mode": "sameobj", "seed": f"{seed}:C02:S{i or ''}", "n": 300 if tier == "quick" else 3000})
     return specs
 
 
+def typed_writes(part):
+    """the echo a conforming inverter sends for a write made through the TYPED setting path (write_setting of a named setting, each family's
+    own _write_setting) is accepted for every 16-bit pattern - top bit set included (export limit >= 32768 W, a switch byte of 0xFF)"""
+    from .. import models
+    g = env.goodwe()
+    for fam, port, kw in (("ET", 8899, {}), ("ET", 502, {}), ("DT", 8899, {"tag": "DTU"}), ("DT", 502, {"tag": "DTU"}), ("ES", 8899, {"fw": b"2225F"})):
+        sim = models.family_sim(fam, **kw)
+        out = []
+
+        async def flow(loop):
+            inv = models.family_cls(g, fam)("inv0", port, 0, 1, 0)
+            await inv.read_device_info()
+            calls = [("grid_export_limit", v) for v in (0, 1, 32767, 32768, 40000, 65535)] if fam != "ES" else []
+            if fam != "DT":
+                calls += [("eco_mode_1_switch", -1), ("eco_mode_2_switch", 0), ("eco_mode_3_switch", -128), ("eco_mode_4_switch", 127)]
+            for sid, v in calls:
+                w0 = len(sim.writes)
+                try:
+                    await inv.write_setting(sid, v)
+                    out.append((sid, v, "ok", len(sim.writes) - w0))
+                except Exception as e:      # noqa
+                    out.append((sid, v, f"{type(e).__name__}: {str(getattr(e, 'message', '') or e)[:60]}", len(sim.writes) - w0))
+        run = engine.run_custom({("inv0", port): sim}, flow, vtime_cap=600, tx_cap=600)
+        framing = "tcp" if port == 502 else "rtu"
+        if run.stop or run.error is not None:
+            part.violate(f"C02/{framing}/conforming-answer-not-delivered", f"{fam} port {port}: typed writes: {run.stop or repr(run.error)[:100]}", {"typed": True})
+            continue
+        for sid, v, how, nw in out:
+            part.evaluations += 1
+            if how != "ok" and nw >= 1:
+                part.violate(f"C02/{framing}/conforming-answer-not-delivered",
+                             f"{fam} port {port}: write_setting({sid!r}, {v}) reached the inverter, which applied it and echoed it, yet the call ended {how}", {"typed": True})
+            elif how == "ok":
+                part.count("typed_setting_write_echoes")
+        part.see(f"typed|{fam}|{port}")
+
+
 def run_shard(spec):
     part = Part()
     contracts.install_validator_contracts(contracts.Sink(part))
+    if spec.get("typed"):
+        typed_writes(part)
     if spec["mode"] == "direct":
         direct(spec, part)
     elif spec["mode"] == "overlap":
@@ -383,6 +422,9 @@ def run_shard(spec):
 def replay(case):
     g = env.goodwe()
     part = Part()
+    if case.get("typed"):
+        typed_writes(part)
+        return [{"key": v["key"], "msg": v["msg"]} for v in part.violations]
     if case.get("sameobj"):
         same_object({"seed": case["seed"], "n": case["i"] + 1}, part)
         return [{"key": v["key"], "msg": v["msg"]} for v in part.violations]
